@@ -356,6 +356,11 @@ class World(object):
     def slot(self):
         return self.arbiter._exclusive_running_command
 
+    def extra_timers(self):
+        """Live loop timers other than the periodic check's own timer."""
+        per = getattr(getattr(self.arbiter.ctrl, 'caller', None), '_timeout', None)
+        return [h._when for h in self.loop._scheduled if not h._cancelled and h is not per]
+
     def stopping_processes(self):
         return [p for w in self.arbiter.watchers for p in w.processes.values() if p.stopping]
 
